@@ -414,7 +414,11 @@ func (lw *wsconcWorld) drain() {
 	lw.got = append([]byte(nil), rest...)
 	var parts []string
 	for _, fr := range frames {
-		parts = append(parts, fmt.Sprintf("%d:%d:%d:%d:%d:%016x", b01(fr.fin), fr.rsv, fr.op, b01(fr.masked), len(fr.payload), wsconcFnv(fr.payload)))
+		head := fr.payload
+		if len(head) > 4 {
+			head = head[:4]
+		}
+		parts = append(parts, fmt.Sprintf("%d:%d:%d:%d:%d:%016x:%s", b01(fr.fin), fr.rsv, fr.op, b01(fr.masked), len(fr.payload), wsconcFnv(fr.payload), wsHx(head)))
 	}
 	s := "-"
 	if len(parts) > 0 {
